@@ -364,6 +364,7 @@ pub fn run(args: &Args) -> i32 {
     cases.extend(enumerate_busy(max_backlog, 20));
     let mut results = vec![];
     let mut executed = 0usize;
+    let mut total_bad = 0usize;
     for chunk in cases.chunks(args.threads.min(12) * 16) {
         let r = mcutil::par_map(args.threads.min(12), chunk, |_, c| {
             let c2 = c.clone();
@@ -372,7 +373,8 @@ pub fn run(args: &Args) -> i32 {
         let bad = r.iter().filter(|x| !matches!(x, Ok(None))).count();
         results.extend(r);
         executed += chunk.len();
-        if bad > chunk.len() / 4 && executed >= chunk.len() * 2 {
+        total_bad += bad;
+        if (bad > chunk.len() / 4 && executed >= chunk.len() * 2) || total_bad >= 300 {
             rep.set("stopped_early_after_mass_failure", true);
             break;
         }
